@@ -264,7 +264,7 @@ class Model:
             helpers = {}
             frozen = set((known or {}).get(mi.name + ':' + ci.name, ()))
             for name, h in ci.methods.items():
-                if not name.startswith('_') or name.startswith('__') or h.kwarg or h.kind == 'property':
+                if not name.startswith('_') or name.startswith('__') or h.kind == 'property':
                     continue
                 if any(dotted_name(d_) not in ('classmethod', 'staticmethod') for d_ in h.node.decorator_list):
                     continue        # a decorator (cache, wrapper) changes what a call means
@@ -324,7 +324,7 @@ class Model:
 
         def qualify(local, h, frozen):
             name = h.name
-            if not name.startswith('_') or name.startswith('__') or h.kwarg or h.generated:
+            if not name.startswith('_') or name.startswith('__') or h.generated:
                 return
             if h.node.decorator_list:
                 return          # a decorator (cache, wrapper) changes what a call means
@@ -1305,10 +1305,15 @@ def _canonicalise_flags(tree):
         params = {x.arg for x in a.posonlyargs + a.args + a.kwonlyargs}
         stable = {p_ for p_ in params if p_ not in stores}
         flags = {}
-        for st in f.body:
+        for i_, st in enumerate(f.body):
             if isinstance(st, ast.Assign) and len(st.targets) == 1 and isinstance(st.targets[0], ast.Name) \
-                    and stores.get(st.targets[0].id) == 1 and st.targets[0].id not in params and _is_kind_test(st.value, stable):
-                flags[st.targets[0].id] = st
+                    and stores.get(st.targets[0].id) == 1 and st.targets[0].id not in params:
+                if _is_kind_test(st.value, stable):
+                    flags[st.targets[0].id] = st
+                elif _is_kind_test(st.value, params) and _flag_reads_before_stores(f, i_, st.targets[0].id, st.value):
+                    # the tested parameter is re-bound later, but only after (or under) the last test of the flag:
+                    # `reevaluated = Fout is not None ... if reevaluated: Fout.x = out  else: Fout = cls.create(..)`
+                    flags[st.targets[0].id] = st
         if not flags:
             continue
         nested = {n.id for g in ast.walk(f) if isinstance(g, (ast.FunctionDef, ast.Lambda)) and g is not f
@@ -1328,6 +1333,38 @@ def _canonicalise_flags(tree):
             new_body.append(T().visit(st))
         if new_body:
             f.body = new_body
+
+
+def _flag_reads_before_stores(f, i, flag, test):
+    """every use of `flag` (bound at top-level statement i of f) sees the names its test reads unchanged: each store to such a name sits in a
+    top-level statement after the last use of the flag, or in the same statement inside an if whose test is where the flag is read"""
+    names = {n.id for n in ast.walk(test) if isinstance(n, ast.Name)}
+    use_idx = [j for j, st in enumerate(f.body) if j != i and any(isinstance(n, ast.Name) and n.id == flag and isinstance(n.ctx, ast.Load) for n in ast.walk(st))]
+    if not use_idx or min(use_idx) < i:
+        return False
+    last = max(use_idx)
+    for j, st in enumerate(f.body):
+        stores_here = [n for n in ast.walk(st) if isinstance(n, ast.Name) and n.id in names and isinstance(n.ctx, (ast.Store, ast.Del))]
+        if not stores_here or j <= i and j != i:
+            if stores_here and j < i:
+                continue        # before the flag is computed
+            if not stores_here:
+                continue
+        if j == i:
+            return False
+        if j > last:
+            continue
+        # j in (i, last]: allowed only when j == last and the stores sit in the arms of an `if` statement whose test reads the flag and
+        # nothing else in that statement reads the flag
+        if j != last or not isinstance(st, ast.If):
+            return False
+        in_test = [n for n in ast.walk(st.test) if isinstance(n, ast.Name) and n.id == flag]
+        all_uses = [n for n in ast.walk(st) if isinstance(n, ast.Name) and n.id == flag]
+        if len(in_test) != len(all_uses):
+            return False
+        if any(isinstance(n, ast.Name) and n.id in names and isinstance(n.ctx, (ast.Store, ast.Del)) for n in ast.walk(st.test)):
+            return False
+    return True
 
 
 def _canonicalise_selected_callee(tree):
@@ -1439,6 +1476,9 @@ def _simplify_tuple_roundtrips(fnode):
             extra = n_un if src.id == dst.id else 0
             if stores.get(src.id, 0) - extra > 1:
                 ok = False
+        if not ok:
+            # the bundle is packed and unpacked in the same block with nothing in between that stores one of its members
+            ok = _adjacent_pack_unpack(fnode, u.value.id, u, {e.id for e in pk.elts})
         if ok:
             todo[id(u)] = [ast.copy_location(ast.Assign(targets=[ast.copy_location(ast.Name(id=dst.id, ctx=ast.Store()), u)],
                                                         value=ast.copy_location(ast.Name(id=src.id, ctx=ast.Load()), u)), u)
@@ -1463,6 +1503,28 @@ def _simplify_tuple_roundtrips(fnode):
             out.append(st)
         return out
     fnode.body = rec(fnode.body)
+
+
+def _adjacent_pack_unpack(fnode, bundle, unpack_stmt, members):
+    def bodies(node):
+        for attr in ('body', 'orelse', 'finalbody'):
+            b = getattr(node, attr, None)
+            if isinstance(b, list) and b and isinstance(b[0], ast.stmt):
+                yield b
+                for st in b:
+                    if not isinstance(st, (ast.FunctionDef, ast.ClassDef)):
+                        yield from bodies(st)
+    for body in bodies(fnode):
+        if not any(st is unpack_stmt for st in body):
+            continue
+        j = next(i for i, st in enumerate(body) if st is unpack_stmt)
+        i = next((i for i in range(j - 1, -1, -1) if isinstance(body[i], ast.Assign) and len(body[i].targets) == 1
+                  and isinstance(body[i].targets[0], ast.Name) and body[i].targets[0].id == bundle), None)
+        if i is None:
+            return False
+        between = body[i + 1:j]
+        return not any(isinstance(x, ast.Name) and isinstance(x.ctx, (ast.Store, ast.Del)) and x.id in members for b in between for x in ast.walk(b))
+    return False
 
 
 def _propagate_snapshots(fnode):
@@ -1718,10 +1780,17 @@ def _inline_calls(fi, clsname, helpers, used):
         if h.vararg:
             # `*shapes` receives the surplus positional arguments as a tuple
             bound[h.vararg] = ast.Tuple(elts=list(val.args[len(params):]), ctx=ast.Load())
+        extra_kw = []
         for k in val.keywords:
             if k.arg not in params:
-                return None
+                if not h.kwarg:
+                    return None
+                extra_kw.append(k)
+                continue
             bound[k.arg] = k.value
+        if h.kwarg:
+            # `**options` receives the surplus keywords as a dict (in call order)
+            bound[h.kwarg] = ast.Dict(keys=[ast.Constant(value=k.arg) for k in extra_kw], values=[k.value for k in extra_kw])
         for p_ in params:
             if p_ not in bound:
                 if p_ not in h.defaults:
@@ -1898,14 +1967,18 @@ def _inline_calls(fi, clsname, helpers, used):
             recv = None
             if h.kind in ('method', 'classmethod') and params:
                 recv, params = params[0], params[1:]
-            if any(isinstance(a, ast.Starred) for a in c.args) or any(k.arg is None or k.arg not in params for k in c.keywords) \
+            if any(isinstance(a, ast.Starred) for a in c.args) or any(k.arg is None or (k.arg not in params and not h.kwarg) for k in c.keywords) \
                     or (len(c.args) > len(params) and not h.vararg):
                 return c
             bound = dict(zip(params, c.args))
             if h.vararg:
                 bound[h.vararg] = ast.Tuple(elts=list(c.args[len(params):]), ctx=ast.Load())
+            extra_kw = [k for k in c.keywords if k.arg not in params]
             for k in c.keywords:
-                bound[k.arg] = k.value
+                if k.arg in params:
+                    bound[k.arg] = k.value
+            if h.kwarg:
+                bound[h.kwarg] = ast.Dict(keys=[ast.Constant(value=k.arg) for k in extra_kw], values=[k.value for k in extra_kw])
             for p_ in params:
                 if p_ not in bound:
                     if p_ not in h.defaults:
@@ -1937,7 +2010,37 @@ def _inline_calls(fi, clsname, helpers, used):
         _unroll_literal_comprehensions(node)
         _propagate_class_alias(node)
         _canonicalise_call_spellings(node)
+        _fold_constant_tests(node)
     return node if changed[0] else None
+
+
+def _fold_constant_tests(fn):
+    """what substituting a literal default for a helper parameter leaves behind: `if None is None: A else: B` is A, `X if None is not None else Y` is Y"""
+    def const_truth(t):
+        if isinstance(t, ast.Constant) and isinstance(t.value, bool):
+            return t.value
+        if isinstance(t, ast.Compare) and len(t.ops) == 1 and isinstance(t.ops[0], (ast.Is, ast.IsNot)) and isinstance(t.left, ast.Constant) \
+                and isinstance(t.comparators[0], ast.Constant) and t.left.value is None and t.comparators[0].value is None:
+            return isinstance(t.ops[0], ast.Is)
+        if isinstance(t, ast.UnaryOp) and isinstance(t.op, ast.Not):
+            v = const_truth(t.operand)
+            return None if v is None else not v
+        return None
+
+    class T(ast.NodeTransformer):
+        def visit_IfExp(self, n):
+            self.generic_visit(n)
+            v = const_truth(n.test)
+            return n if v is None else (n.body if v else n.orelse)
+
+        def visit_If(self, n):
+            self.generic_visit(n)
+            v = const_truth(n.test)
+            if v is None:
+                return n
+            keep = n.body if v else n.orelse
+            return keep if keep else ast.copy_location(ast.Pass(), n)
+    T().visit(fn)
 
 
 def _canonicalise_call_spellings(tree):
